@@ -75,6 +75,12 @@ def cases(draw, subject, lengths):
             r[4] = 0
     chunk = draw(st.sampled_from((1, 1, 1, 3, 4)))  # measured appends deliver `chunk` candles each
     tail = draw(gs.price_rows(2 + 3 * chunk, regimes=("walk", "up", "down"), start_regime="walk", grid=(0.25, 2), base=400))
+    if draw(st.integers(0, 3)) == 0:
+        # the market halts after a moving history: the measured appends are flat repeats of one price (a rolling
+        # variance then sits at or just below zero, smoothed ranges decay - the paths taken on a standstill)
+        px = tail[0][3]
+        tail = [[px, px, px, px, draw(st.sampled_from((0, 0, 3)))] for _ in range(14)]
+        shape += "+flat_tail"
     case = {"pattern": rows, "tail": tail, "chunk": chunk, "shape": shape, "tf": draw(st.sampled_from((None, None, "T5"))), "lengths": list(lengths)}
     if subject == "hexital":
         k = draw(st.integers(2, 5))
